@@ -25,7 +25,7 @@ PROPS = {
     "C12": dict(runs=runs([("scan", D), ("swar", D), ("classes", D)], [("scan", D), ("scan", R), ("swar", D), ("classes", D)]), determining=True,
                 trusted=["lane semantics of the x86 intrinsics (validated against the real instructions by the scan family)",
                          "lane semantics of the NEON intrinsics and tools/neon2lean.py (not executable here)"]),
-    "C13": dict(runs=runs([("place", D), ("place", R), ("scan", D), ("chunk", R)]),
+    "C13": dict(runs=runs([("place", D), ("place", R), ("scan", D), ("scan", R), ("chunk", D), ("chunk", R), ("core", D), ("core", R)]),
                 assumptions=["weak-memory behaviour of the relaxed atomic cache is modelled as atomic steps on one location",
                              "'every switch combination compiles' is observed by building, not proved"]),
     "C14": dict(runs=runs([("block", D), ("core", D)]), determining=True),
@@ -131,7 +131,7 @@ def special(prop, tier, seed, th, chk):
         if not ok:
             fails.append("FAIL C13 hard | cfg flags / provider of a real build differ from Hx.Build + the generated lattice | variant=%s | real: %s | model: %s" % (v, info, want))
         # the shared corpus under this variant (judged against the one model): scanners, placements, chunk sizes
-        for fam in (["place", "chunk", "scan"] if v not in ("dev", "release") else []):
+        for fam in (["place", "chunk", "scan", "core"] if v not in ("dev", "release") else []):
             r = chk.family_run(fam, tier, seed, v, th)
             out.append(r)
         # 16-thread cold-start races in fresh processes
